@@ -217,8 +217,8 @@ class Fn:
         self.body = [c for c in kids(fd) if c.get('kind') == 'CompoundStmt'][0]
         self.void = fd.get('type', {}).get('qualType', '').split('(')[0].strip() == 'void'
         set_parents(fd)
-        # tracked variables: locals/params of type int; unique names for shadowing declarations
-        self.tracked = {}
+        # candidate variables: locals/params of type int; unique names for shadowing declarations
+        cand = {}
         used = {}
         for n in walk(fd):
             if n.get('kind') in ('VarDecl', 'ParmVarDecl') and n.get('type', {}).get('qualType') == 'int' \
@@ -226,7 +226,66 @@ class Fn:
                 nm = n['name']
                 k = used.get(nm, 0)
                 used[nm] = k + 1
-                self.tracked[n['id']] = nm if k == 0 else '%s#%d' % (nm, k + 1)
+                cand[n['id']] = nm if k == 0 else '%s#%d' % (nm, k + 1)
+        # tracked = the candidates RELEVANT for the value the function returns (backward slice):
+        # variables in return expressions; variables in the right-hand side of an assignment to a relevant
+        # variable; variables in a condition that controls a return/break/continue/goto or an assignment
+        # to (or a by-address use of) a relevant variable.  Everything else is opaque (unknown value,
+        # undetermined condition), which only adds behaviours.
+        def refs(n):
+            return set(m['referencedDecl'].get('id') for m in walk(n)
+                       if m.get('kind') == 'DeclRefExpr' and m['referencedDecl'].get('id') in cand)
+        rel = set()
+        for n in walk(self.body):
+            if n.get('kind') == 'ReturnStmt':
+                rel |= refs(n)
+
+        def lhs_id(m):
+            x = strip(m)
+            return x['referencedDecl'].get('id') if x.get('kind') == 'DeclRefExpr' and x['referencedDecl'].get('id') in cand else None
+
+        def writes_rel(n):
+            for m in walk(n):
+                k = m.get('kind')
+                if k in ('ReturnStmt', 'BreakStmt', 'ContinueStmt', 'GotoStmt'):
+                    return True
+                if k in ('BinaryOperator', 'CompoundAssignOperator') and (m.get('opcode') == '=' or k == 'CompoundAssignOperator') \
+                   and lhs_id(kids(m)[0]) in rel:
+                    return True
+                if k == 'UnaryOperator' and m.get('opcode') in ('++', '--', '&') and lhs_id(kids(m)[0]) in rel:
+                    return True
+                if k == 'VarDecl' and m.get('id') in rel:
+                    return True
+            return False
+        while True:
+            n0 = len(rel)
+            for n in walk(self.body):
+                k = n.get('kind')
+                if k == 'BinaryOperator' and n.get('opcode') == '=' and lhs_id(kids(n)[0]) in rel:
+                    rel |= refs(kids(n)[1])
+                elif k == 'VarDecl' and n.get('id') in rel:
+                    rel |= refs(n)
+                elif k == 'IfStmt':
+                    ch = kids(n)
+                    if any(writes_rel(c) for c in ch[1:]):
+                        rel |= refs(ch[0])
+                elif k == 'ConditionalOperator':
+                    pa = n['_p']
+                    while pa.get('kind') in ('ImplicitCastExpr', 'ParenExpr', 'CStyleCastExpr'):
+                        pa = pa['_p']
+                    if pa.get('kind') == 'ReturnStmt' or (pa.get('kind') == 'BinaryOperator' and pa.get('opcode') == '='
+                                                           and lhs_id(kids(pa)[0]) in rel) or \
+                       (pa.get('kind') == 'VarDecl' and pa.get('id') in rel):
+                        rel |= refs(n)
+                elif k == 'CallExpr':
+                    # MPI_Allreduce(&a, &b, ...) / by-address arguments: if one is relevant, so are the others
+                    ad = [lhs_id(kids(strip(a))[0]) for a in kids(n)[1:]
+                          if strip(a).get('kind') == 'UnaryOperator' and strip(a).get('opcode') == '&' and kids(strip(a))]
+                    if any(x in rel for x in ad):
+                        rel |= set(x for x in ad if x)
+            if len(rel) == n0:
+                break
+        self.tracked = {i: nm for i, nm in cand.items() if i in rel}
         self.mark = None   # id of the marked CallExpr
 
     def tv(self, n):
